@@ -145,6 +145,13 @@ def specLine (ss : Specs) (lhs rhs : String) : Except String Specs :=
         if dropEmptyArchs rhs.trimAscii.toString == want then .ok ss
         else .error s!"observable state differs from the abstract map: spec={want}"
       | none => .error "bad obs"
+    | "contains" =>
+      match (field args "h").bind entity? with
+      | some h =>
+        if rhs.trimAscii.toString == (if s.contains h then "c=1" else "c=0") then .ok ss
+        else .error "contains disagrees with the abstract map (live or reserved handles exist, others do not)"
+      | none => .error "bad contains"
+    | "yields" => .error "a call on the shared (&self) path performed a number of atomic accesses other than one"
     | "drop" =>
       match parseRhs rhs with
       | some (_, d) =>
@@ -196,6 +203,11 @@ def stepLine (ws : Worlds) (lhs : String) : Except String (Worlds × String) :=
           | some hs => .ok (ws, obs w hs)
           | none => .error "bad obs"
         | "drop" => .ok (ws.filter (·.1 != n), "ok d=" ++ showComps (sortComps (allVals w)))
+        | "contains" =>
+          match (field args "h").bind entity? with
+          | some h => .ok (ws, if w.contains h then "c=1" else "c=0")
+          | none => .error "bad contains"
+        | "yields" => .ok (ws, "ok")
         | "take" =>
           match (field args "h").bind entity?, field args "into" with
           | some h, some into =>
